@@ -812,7 +812,24 @@ func (fr *Frame) havocLoop(st *State, h *ssa.BasicBlock, body map[*ssa.BasicBloc
 				st.srcAdr[p.Comment] = false
 			}
 		case *SliceV:
-			unsup("loop-carried slice value %s (not supported yet)", p.Name())
+			// a slice variable reassigned in the loop: with "option fresh-loop-slices" it becomes an arbitrary slice
+			// over its own backing array (sound when every value it takes is freshly allocated, as the contract
+			// author asserts with the option; recorded as an assumption)
+			if fr.topContract() == nil || fr.topContract().Options["fresh-loop-slices"] == "" {
+				unsup("loop-carried slice value %s (use 'option fresh-loop-slices' when every value it takes is freshly allocated)", p.Name())
+			}
+			nv := v.symValue(nm, p.Type(), false)
+			if sv, isS := nv.(*SliceV); isS && sv.Obj != nil {
+				if c, okc := v.initMem[sv.Obj]; okc {
+					st.mem[sv.Obj] = c
+				}
+			}
+			st.env()[p] = nv
+			if p.Comment != "" {
+				st.srcVar[p.Comment] = nv
+				st.srcAdr[p.Comment] = false
+			}
+			v.assume("loop-carried slice " + phiName(p) + " is treated as an arbitrary slice with its own backing array at the loop head (option fresh-loop-slices: every value assigned to it is freshly allocated)")
 		default:
 			unsup("loop-carried value of kind %T", cur)
 		}
@@ -859,6 +876,9 @@ func (fr *Frame) havocLoop(st *State, h *ssa.BasicBlock, body map[*ssa.BasicBloc
 	sort.Slice(ws, func(i, j int) bool { return ws[i].ID < ws[j].ID })
 	for _, o := range ws {
 		fr.havocObject(st, o, fmt.Sprintf("loop%d", fr.loopOrd[h]))
+		if v.writeLog != nil {
+			v.writeLog[o] = true // a nested loop inside a scratch run: its writes belong to the enclosing body
+		}
 	}
 }
 
@@ -940,11 +960,12 @@ func (v *Verifier) freshOfType(name string, t types.Type, cur Value) Value {
 // scratchBody runs one iteration of the loop body (from the header) with obligations disabled.
 func (fr *Frame) scratchBody(st *State, h *ssa.BasicBlock, body map[*ssa.BasicBlock]bool) {
 	// run from header; stop when returning to the header or leaving the loop
-	saveLoops := fr.c.Loops
-	fr.c.Loops = map[int]*Annot{} // no invariants during scratch (nested loops must be unrollable or are unsupported)
+	// nested annotated loops keep their annotations: at their heads the scratch run havocs them (recursively
+	// discovered write sets, propagated to the enclosing log) and assumes their invariants; obligations are
+	// not recorded in scratch mode
 	saveStop := fr.scratchStop
 	fr.scratchStop = h
-	defer func() { fr.c.Loops = saveLoops; fr.scratchStop = saveStop }()
+	defer func() { fr.scratchStop = saveStop }()
 	// execute header instructions then successors; treat header as stop for back edges
 	var term ssa.Instruction
 	for _, ins := range h.Instrs {
@@ -1055,4 +1076,12 @@ func (v *Verifier) hasAbstractField(st *types.Struct, depth int) bool {
 		}
 	}
 	return false
+}
+
+func (fr *Frame) topContract() *Contract {
+	f := fr
+	for f.caller != nil {
+		f = f.caller
+	}
+	return f.c
 }
